@@ -336,7 +336,11 @@ func (a *Authority) runCLI(p *process, extra cmd.CommandComponent, args []string
 		Storage:         &local.StorageClient{}, // only used to read --svsm_* files
 		Endorse:         extra,
 	}
-	root := cmd.MakeApp(context.Background(), app)
+	cliBase, cliCancel := context.WithCancel(context.Background())
+	if a.Plan != nil {
+		a.Plan.Cancel = cliCancel
+	}
+	root := cmd.MakeApp(cliBase, app)
 	root.SetArgs(args)
 	root.SilenceErrors = true
 	root.SilenceUsage = true
@@ -347,7 +351,11 @@ func (a *Authority) runCLI(p *process, extra cmd.CommandComponent, args []string
 
 // libContext builds the context the rotate library calls expect, the way the commands do.
 func (a *Authority) libContext(p *process, f Flags) (context.Context, error) {
-	ctx := output.NewContext(context.Background(), &output.Options{Quiet: true, Overwrite: f.Overwrite, KeepGoing: f.KeepGoing})
+	base, cancel := context.WithCancel(context.Background())
+	if a.Plan != nil {
+		a.Plan.Cancel = cancel // a plan may have the caller give up at one of its numbered calls
+	}
+	ctx := output.NewContext(base, &output.Options{Quiet: true, Overwrite: f.Overwrite, KeepGoing: f.KeepGoing})
 	ctx = keys.NewContext(ctx, &keys.Context{Random: a.Rand})
 	var err error
 	if lk, ok := p.km.(*localkm.T); ok {
